@@ -14,9 +14,29 @@ independently, tabulates with the regex crate the anchored match length of every
 rule at every char boundary; the extracted mirror is run with that table as its
 oracle and must produce the same lexemes / error / lexing state.  A Python
 transcription of the declarative spec (plain stack) localises a difference.
+
+Two tables.  The SLICE table (`\\A(?:re_str)` on `&input[pos..]`, what lexer.rs asks) ties the
+model to the implementation; the WHOLE-TEXT table (re_str itself, same flags, `find_at(input, pos)`
+with start == pos) is what the written regexes denote.  The same extracted model is run on both
+(theories/C09/Lookbehind.v: the output depends on the table only through the consulted cells).  The
+lexer must equal the run on the whole-text table; where it equals the run on the slice table
+instead, some rule contains an assertion that looks behind the position (regex_syntax HIR), every
+rule without one has identical rows and the tables agree at position 0, it is the known finding
+C09-lookbehind-slice; anything else is a violation.
 """
+import random
+
 from vlib import core
 from gen import c09gen as G
+
+KNOWN_LB = "look-behind assertions see each lexing position as the start of the text"
+# families whose regexes are plain literals / classes by construction: the two tables must be identical
+LB_FREE_FAMILIES = ("stackwalk", "table")
+# the witness of C09_lookbehind_tables_differ_refuted (theories/C09/Lookbehind.v lb_slice / lb_whole and the
+# two Examples), as the regex crate must give it for LOOK_CORPUS[0] on "ba"
+LB_WITNESS = {"RULES": "4c494e455f53544152545f41,7,-,N;42,9,-,N;41,11,-,N", "STATES": "0:0", "N": "2", "BD": "0 1 2",
+              "MT": "1:1;0:1;1:1", "MW": "-;0:1;1:1", "LB": "1 0 0",
+              "slice": "L 9 0 1,L 7 1 1", "whole": "L 9 0 1,L 11 1 1"}
 
 
 def hx(s):
@@ -130,6 +150,12 @@ def run(ctx):
         fl = G.CORPUS_FLAGS.get(ci, "-")
         for inp in inputs:
             cases.append(("lex", lex_line_spec(spec, fl, [], inp), {"spec": spec, "input": inp, "family": "corpus"}))
+    # the auditors' look-behind inputs (fixed; no random draw): the known finding reproduces in every run
+    for ci, (spec, inputs) in enumerate(G.LOOK_CORPUS):
+        fl = G.LOOK_CORPUS_FLAGS.get(ci, "-")
+        for ii, inp in enumerate(inputs):
+            cases.append(("lex", lex_line_spec(spec, fl, [], inp),
+                          {"spec": spec, "input": inp, "family": "lookbehind-corpus", "id": "lookbehind-corpus/%d/%d" % (ci, ii)}))
     nspec = ctx.n(200, 16000)
     per = 4
     for k in range(nspec):
@@ -137,13 +163,13 @@ def run(ctx):
         with_flags = (not stackfam) and rng.random() < 0.2
         sp = G.stack_spec(rng) if stackfam else G.random_spec(rng, with_flags)
         text = sp.text()
-        for _ in range(per):
+        for ii in range(per):
             inp = G.stack_input(rng, sp) if stackfam else G.random_input(rng, sp)
             omit = []
             if sp.names() and rng.random() < 0.08:
                 omit = [rng.choice(sp.names())]
             cases.append(("lex", lex_line_spec(text, sp.flags_field(), omit, inp),
-                          {"spec": text, "input": inp, "omit": omit,
+                          {"spec": text, "input": inp, "omit": omit, "id": "spec/%d/%d" % (k, ii),
                            "family": "stackwalk" if stackfam else "flags" if with_flags else "random"}))
         if k % 2 == 0:
             mp = G.random_map(rng, sp.names())
@@ -167,6 +193,17 @@ def run(ctx):
     cases.append(("ids", "ids T %s %s %s" % (rf, sf, "%s:0,%s:1" % (hx("T"), hx("U"))),
                   {"rules": dup_rules, "map": [("T", 0), ("U", 1)], "family": "dup-names-witness"}))
 
+    # look-behind family (own random stream: the cases above stay what they were)
+    lrng = random.Random(ctx.seed * 7919 + 9)
+    nlook = ctx.n(60, 6000)
+    for k in range(nlook):
+        sp = G.look_spec(lrng)
+        text = sp.text()
+        for ii in range(per):
+            inp = G.look_input(lrng, sp)
+            cases.append(("lex", lex_line_spec(text, sp.flags_field(), [], inp),
+                          {"spec": text, "input": inp, "family": "lookbehind", "id": "lookbehind/%d/%d" % (k, ii)}))
+
     lines = [c[1] for c in cases]
     impl = core.run_lines([exe], lines)
 
@@ -178,8 +215,30 @@ def run(ctx):
             heads.append(out[:out.index(cut)])
             idx.append(i)
     model = dict(zip(idx, core.run_lines([mexe], heads)))
+    # the same model on the whole-text table (only where the tables differ)
+    heads2, idx2 = [], []
+    for i, h in zip(idx, heads):
+        if cases[i][0] != "lex":
+            continue
+        secs = parse_head(h)
+        if secs["MW"] != secs["MT"]:
+            heads2.append(" # ".join("%s %s" % (k, secs[k]) for k in ("RULES", "STATES", "N", "BD")) + " # MT " + secs["MW"])
+            idx2.append(i)
+    model_whole = dict(zip(idx2, core.run_lines([mexe], heads2)))
 
-    ndiff = nspecdiff = 0
+    def lex_of(m):
+        m = m.partition(" # GHOST ")[0]
+        return m[4:] if m.startswith("LEX ") else m
+
+    def cell0(row):
+        for c in row.split():
+            if c.startswith("0:"):
+                return c
+        return None
+
+    ndiff = nspecdiff = nden = ntab = 0
+    known_cases = []
+    witness_seen = False
     for i, (c, out) in enumerate(zip(cases, impl)):
         kind, line, desc = c
         fam = desc["family"]
@@ -230,7 +289,61 @@ def run(ctx):
                     nspecdiff += 1
                     ctx.violation({"what": "extracted mirror differs from the Python transcription of the spec",
                                    "case": desc, "model": mlex, "spec": want, "replay_cmd": replay}, no_input=True)
-            if impl_lex != mlex:
+            # ---- slice table vs whole-text table
+            rows_s, rows_w, lb = secs["MT"].split(";"), secs["MW"].split(";"), secs["LB"].split()
+            mwhole = lex_of(model_whole[i]) if i in model_whole else mlex
+            any_lb = "1" in lb
+            if any_lb:
+                ctx.count("cases_with_a_look_behind_rule")
+            if "E" in lb or len(rows_s) != len(rows_w) or (secs["RULES"] != "-" and len(lb) != len(rows_s)):
+                ntab += 1
+                ctx.violation({"what": "the HIR of an accepted rule regex could not be built, or the two match tables "
+                                       "have different shapes", "case": desc, "LB": secs["LB"], "replay_cmd": replay},
+                              no_input=True)
+                lb = ["1"] * len(rows_s)
+            table_ok = True
+            if rows_s != rows_w:
+                ctx.count("cases_where_the_two_tables_differ")
+                bad = [j for j in range(len(rows_s)) if rows_s[j] != rows_w[j] and lb[j] != "1"]
+                pos0 = [j for j in range(len(rows_s)) if cell0(rows_s[j]) != cell0(rows_w[j])]
+                if bad or pos0 or fam in LB_FREE_FAMILIES:
+                    # matching on the slice `&s[i..]` with `\A(?:re)` differs from what re denotes at i for a
+                    # regex WITHOUT a look-behind assertion (or at position 0): the slicing has an effect
+                    # beyond the known class
+                    table_ok = False
+                    ntab += 1
+                    ctx.violation({"what": "a rule without look-behind assertion (or position 0) has different matches on the "
+                                           "slice `&input[pos..]` and in the whole input at pos",
+                                   "case": desc, "rules_without_look_behind_that_differ": bad,
+                                   "rules_that_differ_at_0": pos0, "rule_table": secs.get("RULES"),
+                                   "slice_table": secs["MT"], "whole_text_table": secs["MW"], "look_behind": secs["LB"],
+                                   "replay_cmd": replay})
+                if mwhole != mlex:
+                    ctx.count("cases_where_the_model_runs_on_the_two_tables_differ")
+            if desc.get("id") == "lookbehind-corpus/0/0":
+                witness_seen = all(secs.get(k) == v for k, v in LB_WITNESS.items() if k.isupper()) \
+                    and mlex == LB_WITNESS["slice"] and mwhole == LB_WITNESS["whole"]
+            if impl_lex != mwhole and impl_lex == mlex:
+                # the lexer follows the slice table and so deviates from what the regexes denote
+                nden += 1
+                if any_lb and table_ok and fam not in LB_FREE_FAMILIES:
+                    known_cases.append("%s %s" % (fam, desc["id"]) if "id" in desc and not desc["id"].startswith(fam)
+                                       else desc.get("id") or "%s spec %r input %r" % (fam, desc.get("spec"), desc.get("input")))
+                    ctx.count("known_look_behind_cases_" + fam)
+                    ctx.violation({"what": KNOWN_LB, "case": desc, "impl": impl_lex, "denotation": mwhole,
+                                   "replay_cmd": replay}, known_key=KNOWN_LB)
+                else:
+                    ctx.violation({"what": "lexer output differs from the specified lexer run on what the rules' regexes "
+                                           "denote in the whole input, outside the known look-behind class",
+                                   "case": desc, "impl": impl_lex, "model_on_whole_text_table": mwhole,
+                                   "model_on_slice_table": mlex, "rule_table": secs.get("RULES"),
+                                   "slice_table": secs["MT"], "whole_text_table": secs["MW"], "look_behind": secs["LB"],
+                                   "authority": "C09_lex_choice_spec ... (model = spec for all oracles), "
+                                                "C09_lex_table_extensional", "replay_cmd": replay})
+            elif impl_lex == mwhole and impl_lex != mlex:
+                # a lexer that searches the whole text (the repair): the property holds on this case
+                ctx.count("cases_where_the_lexer_follows_the_whole_text_table_only")
+            if impl_lex != mlex and impl_lex != mwhole:
                 ndiff += 1
                 # the mirror is proved to meet the declarative spec for every oracle; the oracle
                 # table comes from the same regex crate with the same pattern and flags: the
@@ -239,7 +352,8 @@ def run(ctx):
                                "case": desc, "impl": impl_lex, "model": mlex,
                                "spec_transcription": (",".join(sp[0]) if sp and sp[0] else None),
                                "rule_table": secs.get("RULES"), "states": secs.get("STATES"),
-                               "match_table": secs.get("MT"),
+                               "match_table": secs.get("MT"), "whole_text_table": secs.get("MW"),
+                               "model_on_whole_text_table": mwhole,
                                "authority": "C09_lex_choice_spec, C09_lex_tiles, C09_named_emit_unnamed_skip, "
                                             "C09_lex_states (model = spec for all oracles)",
                                "replay_cmd": replay})
@@ -257,6 +371,24 @@ def run(ctx):
                                "authority": "C09_set_rule_ids_exact", "replay_cmd": replay})
     ctx.oblige(ndiff == 0, "correspondence")
     ctx.oblige(nspecdiff == 0, "spec-transcription")
+    # the lexer equals the model run on what the regexes denote (restricted by the known finding)
+    ctx.oblige(nden == 0, "denotation")
+    # slicing changes the matches of look-behind rules only, and never at position 0
+    ctx.oblige(ntab == 0, "tables-differ-for-look-behind-rules-only")
+    # the tables of C09_lookbehind_tables_differ_refuted are the ones the regex crate gives
+    if not witness_seen:
+        ctx.violation({"what": "the tables / model outputs of the witness of C09_lookbehind_tables_differ_refuted "
+                               "(`^a`/`b`/`a` on \"ba\") are no longer what the harness computes", "expected": LB_WITNESS},
+                      no_input=True)
+    ctx.oblige(witness_seen, "lookbehind-witness")
+    ctx.coverage["look_behind"] = {"known_class_cases": len(known_cases), "first_known_cases": known_cases[:5]}
+    if known_cases:
+        # the KNOWN-FINDING line carries the number of cases of this run and the first of them
+        for i, k in enumerate(ctx.known_hits):
+            if k.get("match") == KNOWN_LB:
+                k = dict(k)
+                k["note"] = "%s (%d cases, first: %s)" % (KNOWN_LB, len(known_cases), known_cases[0])
+                ctx.known_hits[i] = k
     ctx.coverage["rule"] = (
         "hand-written corpus first; then %d random .l specs (2-8 rules drawn from overlapping regex families: keyword vs "
         "identifier in both orders, =/==/=+, a|ab vs ab|a, possibly-empty and lazy regexes, 2/3/4-byte characters; "
@@ -267,10 +399,20 @@ def run(ctx):
         "(missing INITIAL, dangling targets, duplicate ids/names, id-less rules); set_rule_ids on random maps.  "
         "non-trivial = at some visited position >= 2 active rules have a non-empty match, or a completed step has a "
         "stack operation (ids: some name is missing on either side); distinct by canonical case line" % (nspec, per))
+    ctx.coverage["rule_look_behind_family"] = (
+        "own random stream (the cases above are unaffected): the auditors' specs/inputs first (C09 audit 1, C11 audit 5), then "
+        "%d specs of 1-3 rules with `^`, `\\A`, `\\b`, `\\B`, `\\b{start}`, `(?m:^)`, `(?-m)^`, assertions inside/at the end of "
+        "the match, next to 1-4 plain rules over the same text, 25%% with a pushed start state, 25%% with flags (multi_line, "
+        "unicode, case_insensitive, dot_matches_new_line) x %d inputs; EVERY lex case of every family is evaluated on both "
+        "match tables (slice / whole text)" % (nlook, per))
     ctx.coverage["exhaustive"] = False
     ctx.assumptions += [
         "regex matching is the regex crate's: the match oracle of the theorems is instantiated by the table "
-        "`Regex::find(&input[pos..]).end()` of `\\A(?:re_str)` built with the options Rule::new applies",
+        "`Regex::find(&input[pos..]).end()` of `\\A(?:re_str)` built with the options Rule::new applies (slice table) and by "
+        "`Regex::find_at(input, pos)` (match start == pos) of re_str built with the same options (whole-text table = what the "
+        "written regex denotes at pos; leftmost-first semantics make it the anchored match at pos)",
+        "which assertions look behind the position is read off regex_syntax's HIR of re_str (LookSet of the translated regex: "
+        "Start, StartLF, StartCRLF, Word* except WordEndHalf*)",
         "matches of a Regex on a &str end on char boundaries inside the haystack (oracle_on_boundaries / oracle_in_bounds)",
         "HashMap keys are pairwise distinct; rule names are pairwise distinct (LexParser's DuplicateName error) — "
         "without the latter set_rule_ids' None shortcut is wrong (C09_set_rule_ids_dup_names_refuted, from_rules only)",
